@@ -2,7 +2,7 @@
    Only statements (pinned with their literal text), non-vacuity examples and
    Print Assumptions. Model: Cluster/Remote.v; proofs: Cluster/RemoteProofs.v (proxy, chains),
    Cluster/RemoteNetProofs.v (two-node system). *)
-From Coq Require Import List NArith Bool Sorted.
+From Coq Require Import List NArith Bool Sorted Lia Arith.
 From RV Require Import Cluster.Remote Cluster.RemoteProofs Cluster.RemoteNetProofs Cluster.RemoteReplyProofs.
 Import ListNotations.
 Local Open Scope N_scope.
@@ -56,6 +56,19 @@ Proof.
   intros A l x. split; [apply flat_push|]. split; [intros i; apply flat_hop|].
   split; [intros y l'; apply flat_pop|intros k; apply flat_cut].
 Qed.
+
+(* connection loss at ANY byte offset: if one stage is a byte pipe carrying self-delimiting frames
+   (hypotheses on enc/dec; the real framing is an 8-byte length prefix, C19), what a reader gets
+   out of the first n bytes is a prefix of the frames written — the rest, a suffix, is lost.
+   This is what the label [LClose k] of the transition system does for every k. *)
+Theorem C20_cut_at_any_byte : forall (F : Type) (enc : F -> list N) (dec : list N -> option (F * list N)),
+  (forall f rest, dec (enc f ++ rest) = Some (f, rest)) ->
+  (forall f bs c tl, enc f = bs ++ c :: tl -> dec bs = None) ->
+  dec [] = None ->
+  forall fs n fuel,
+    (length (firstn n (concat (map enc fs))) <= fuel)%nat ->
+    exists k, read_all dec fuel (firstn n (concat (map enc fs))) = firstn k fs.
+Proof. exact @cut_at_any_byte. Qed.
 
 (* (1) tags inserted into pending by a proxy are strictly increasing, hence pairwise distinct,
    bounded by the counter, and pending only holds inserted pairs *)
@@ -158,6 +171,35 @@ Check (C20_mirror_settled : forall resp nf nb ls pid, let st := run resp (init n
   x_alive (px st pid) = t_alive (tg st pid) /\ x_groups (px st pid) = t_groups (tg st pid)).
 
 (* ---- non-vacuity ---- *)
+(* the hypotheses of C20_cut_at_any_byte are met by a length-prefixed encoding *)
+Definition toy_enc (l : list N) : list N := N.of_nat (length l) :: l.
+Definition toy_dec (bs : list N) : option (list N * list N) :=
+  match bs with
+  | [] => None
+  | n :: r => if Nat.leb (N.to_nat n) (length r)
+              then Some (firstn (N.to_nat n) r, skipn (N.to_nat n) r) else None
+  end.
+Example toy_dec_enc : forall f rest, toy_dec (toy_enc f ++ rest) = Some (f, rest).
+Proof.
+  intros f rest. unfold toy_dec, toy_enc. simpl. rewrite Nnat.Nat2N.id.
+  rewrite app_length. replace (Nat.leb (length f) (length f + length rest)) with true
+    by (symmetry; apply Nat.leb_le; lia).
+  rewrite firstn_app, skipn_app, Nat.sub_diag, firstn_all, skipn_all. simpl. now rewrite app_nil_r.
+Qed.
+Example toy_dec_partial : forall f bs c tl, toy_enc f = bs ++ c :: tl -> toy_dec bs = None.
+Proof.
+  intros f bs c tl E. destruct bs as [|n r]; [reflexivity|]. unfold toy_enc in E. simpl in E.
+  injection E as E1 E2. subst n. simpl. rewrite Nnat.Nat2N.id.
+  destruct (Nat.leb_spec (length f) (length r)) as [Hle|Hgt]; [|reflexivity].
+  exfalso. rewrite E2, app_length in Hle. simpl in Hle. lia.
+Qed.
+Example toy_cut : read_all toy_dec 20 (firstn 9 (concat (map toy_enc [[1; 2]; [3; 4; 5]; [6]; []])))
+                  = [[1; 2]; [3; 4; 5]; [6]].
+Proof. vm_compute. reflexivity. Qed.
+Example toy_cut' : read_all toy_dec 20 (firstn 6 (concat (map toy_enc [[1; 2]; [3; 4; 5]; [6]; []])))
+                   = [[1; 2]].
+Proof. vm_compute. reflexivity. Qed.
+
 Definition ex_resp (pid : N) (m : msg) : option (list N) := Some (pid :: m_a m).
 Definition ex_ls : list label :=
   [LSpawn 5; LCtl; LHopB 0; LDeliverB;
@@ -206,6 +248,7 @@ Print Assumptions C20_tags_fresh_proxy.
 Print Assumptions C20_reply_correlation_proxy.
 Print Assumptions C20_reply_finds_open.
 Print Assumptions C20_chain_is_fifo.
+Print Assumptions C20_cut_at_any_byte.
 Print Assumptions C20_tags_fresh.
 Print Assumptions C20_reply_correlation.
 Print Assumptions C20_reply_complete.
